@@ -13,6 +13,7 @@
 #include <unordered_set>
 
 extern "C" void __sanitizer_set_death_callback(void (*)(void)) __attribute__((weak));
+extern "C" int __lsan_do_recoverable_leak_check(void) __attribute__((weak));
 
 namespace vf {
 
@@ -342,10 +343,13 @@ static void shrink(std::vector<uint64_t>& best, Fields& fields, std::string& msg
   if (!fails(best, &canon, &fields, &msg)) return;  // not reproducible from picks: keep as is
   best = canon;
   bool progress = true;
-  while (progress && budget > 0) {
+  // minimisation effort is bounded by executions and by wall time (affects only how small the replay gets)
+  const double t_start = elapsed();
+  auto spent = [&] { return elapsed() - t_start > 20.0; };
+  while (progress && budget > 0 && !spent()) {
     progress = false;
     for (size_t chunk : {32, 8, 4, 2, 1}) {
-      for (size_t i = 0; i + chunk <= best.size() && budget > 0;) {
+      for (size_t i = 0; i + chunk <= best.size() && budget > 0 && !spent();) {
         std::vector<uint64_t> t(best.begin(), best.begin() + i);
         t.insert(t.end(), best.begin() + i + chunk, best.end());
         budget--;
@@ -356,7 +360,7 @@ static void shrink(std::vector<uint64_t>& best, Fields& fields, std::string& msg
           i++;
       }
     }
-    for (size_t i = 0; i < best.size() && budget > 0; i++) {
+    for (size_t i = 0; i < best.size() && budget > 0 && !spent(); i++) {
       if (best[i] == 0) continue;
       for (uint64_t cand : {(uint64_t)0, best[i] / 2, best[i] - 1}) {
         if (cand >= best[i]) continue;
@@ -424,6 +428,7 @@ int verif_main(int argc, char** argv, const HarnessDef& def) {
     for (int r = 0; r < reps; r++) {
       Case c;
       c.counting = false;
+      c.replay = true;
       std::string msg;
       Outcome o = PASS;
       if (!fields.empty() && def.direct && !arg_value("force-picks")) {
@@ -451,15 +456,25 @@ int verif_main(int argc, char** argv, const HarnessDef& def) {
       }
       if (o == FAIL) {
         printf("REPLAY-FAIL %s\n", msg.c_str());
-        return 1;
+        fflush(stdout);
+        g_dying = 1;
+        _exit(1);
       }
       if (o == SKIP) {
         printf("REPLAY-SKIP %s\n", msg.c_str());
         return 3;
       }
     }
+    if (__lsan_do_recoverable_leak_check && __lsan_do_recoverable_leak_check()) {
+      printf("REPLAY-FAIL LeakSanitizer: memory leaked while replaying this case\n");
+      fflush(stdout);
+      g_dying = 1;
+      _exit(1);
+    }
     printf("REPLAY-PASS\n");
-    return 0;
+    fflush(stdout);
+    g_dying = 1;
+    _exit(0);
   }
 
   install_death_handlers();
@@ -483,7 +498,26 @@ int verif_main(int argc, char** argv, const HarnessDef& def) {
         g_st.excluded++;
         g_st.excluded_by[msg]++;
       } else {
-        record_failure(src.log, c.fields, msg, !no_shrink);
+        if (msg.rfind("LeakSanitizer", 0) == 0 && !c.replay) {
+          // a periodic leak check fired: find the case that leaks by re-running the recent ones one by one
+          // (each followed by its own leak check, which `replay` mode requests from the property)
+          bool found = false;
+          for (long j = std::max(start, i - 1100); j <= i && !found; j++) {
+            PrngSrc s2(g_seed, (uint64_t)j);
+            Case c2;
+            c2.index = (uint64_t)j;
+            c2.size = c.size;
+            c2.counting = false;
+            c2.replay = true;
+            std::string m2;
+            if (run_with(s2, c2, &m2) == FAIL) {
+              record_failure(s2.log, c2.fields, m2, false);
+              found = true;
+            }
+          }
+          if (!found) record_failure(src.log, c.fields, msg, false);
+        } else
+          record_failure(src.log, c.fields, msg, !no_shrink);
         if (++nfail >= max_fail) break;
       }
     }
@@ -492,11 +526,15 @@ int verif_main(int argc, char** argv, const HarnessDef& def) {
     Fields last_fail_fields;
     std::string last_fail_msg;
     bool failed_once = false;
+    double t_first_fail = 0;
     auto body = [&](Src& src, int size) {
       if (!failed_once && elapsed() > cap) {  // budget exhausted: remaining cases are no-ops
         g_st.capped = true;
         return;
       }
+      // rapidcheck's shrinking is unbounded: after 25 s every further candidate "passes", which ends it with the
+      // smallest failing case found so far (bounds only the minimisation effort, never the verdict)
+      if (failed_once && elapsed() - t_first_fail > 25.0) return;
       Case c;
       c.index = g_st.evaluations + g_st.excluded;
       c.size = size > max_size ? max_size : size;
@@ -511,6 +549,7 @@ int verif_main(int argc, char** argv, const HarnessDef& def) {
           g_st.excluded_by[msg]++;
         }
       } else {
+        if (!failed_once) t_first_fail = elapsed();
         failed_once = true;  // rapidcheck now shrinks: the last failing run is the smallest
         last_fail_picks = src.log;
         last_fail_fields = c.fields;
@@ -530,8 +569,16 @@ int verif_main(int argc, char** argv, const HarnessDef& def) {
     fprintf(stderr, "unknown engine %s\n", g_engine.c_str());
     return 2;
   }
+  // end-of-run leak check (only meaningful when no case failed: a failing case may legitimately leave blocks behind)
+  if (nfail == 0 && __lsan_do_recoverable_leak_check && __lsan_do_recoverable_leak_check()) {
+    g_st.failures.emplace_back("", "LeakSanitizer: memory leaked during this run (not attributed to a single case)");
+    nfail++;
+  }
   write_stats();
-  return nfail ? 1 : 0;
+  fflush(stdout);
+  fflush(stderr);
+  g_dying = 1;          // the run is over: no crash replay from exit-time sanitizer activity
+  _exit(nfail ? 1 : 0);  // skip the exit-time leak report (already done above) and static destructors
 }
 
 int fuzz_one(const HarnessDef& def, const uint8_t* data, size_t size) {
